@@ -11,9 +11,9 @@ Open Scope string_scope.
 Open Scope list_scope.
 Open Scope Z_scope.
 
-(* the code as found / with the two repairs of notes/C36_fix.md *)
-Definition cfg_found (keep pst partial : bool) : cfg := mkCfg keep pst partial false false.
-Definition cfg_fixed (keep pst partial : bool) : cfg := mkCfg keep pst partial true true.
+(* the code as found / with the five repairs of notes/C36_fix.md *)
+Definition cfg_found (keep pst partial : bool) : cfg := mkCfg keep pst partial false false false false false.
+Definition cfg_fixed (keep pst partial : bool) : cfg := mkCfg keep pst partial true true true true true.
 
 (* ---- other series pass through unchanged ----------------------------------------------------
    For every entry stream of the wrapped parser, every option setting and both endings: the
@@ -200,4 +200,21 @@ Theorem C36_validate_failure_refuted :
       ser "h_bucket" [("a", "2"); ("le", "2")] None [] 8; ser "h_bucket" [("a", "2"); ("le", "+Inf")] None [] 16;
       ser "h_count" [("a", "2")] None [] 16] true)) =
   [ONhcb (mkS [("__name__", "h"); ("a", "2")] None 0 []) (mkNH false 16 (Fin 0) [] [16])].
+Proof. vm_compute. reflexivity. Qed.
+
+Example exemplars_repaired :
+  flat_map nhcb_ex (fst (run le_tab (cfg_fixed false false true)
+     (BType "h" T_HISTOGRAM :: grp "1" None [(7, Some 10)] 48 40 ++ grp "2" None [(9, Some 20)] 8 24) true))
+  = [[(9, Some 20)]] /\
+  flat_map nhcb_ex (fst (run le_tab (cfg_fixed false false true)
+     (BType "h" T_HISTOGRAM :: grp "1" None [(7, Some 10)] 16 40 ++ grp "2" None [(9, None)] 8 24) true))
+  = [[(7, Some 10)]; [(9, None)]].
+Proof. split; vm_compute; reflexivity. Qed.
+
+Example validate_failure_repaired :
+  filter is_nhcb (fst (run le_tab (cfg_fixed false false false)
+     [BType "h" T_HISTOGRAM; ser "h_bucket" [("a", "1"); ("le", "1")] None [] 32; ser "h_count" [("a", "1")] None [] 24;
+      ser "h_bucket" [("a", "2"); ("le", "2")] None [] 8; ser "h_bucket" [("a", "2"); ("le", "+Inf")] None [] 16;
+      ser "h_count" [("a", "2")] None [] 16] true)) =
+  [ONhcb (mkS [("__name__", "h"); ("a", "2")] None 0 []) (mkNH false 16 (Fin 0) [Fin 16] [8; 8])].
 Proof. vm_compute. reflexivity. Qed.
